@@ -25,4 +25,260 @@ theorem foldl_letters (m : Nat) :
       rw [ih _ (by omega), toNat_letter _ (by omega)]
       omega
 
+/-- the loop of `push_column` computes the textbook spreadsheet column name -/
+theorem pushColumn_eq_colName (n : Nat) : pushColumn n = colName n := by
+  induction n using Nat.strongRecOn with
+  | _ n ih =>
+    unfold pushColumn
+    rw [colLettersRev_succ, colName]
+    by_cases h : n < 26
+    · have : n / 26 = 0 := by omega
+      have h2 : n % 26 = n := by omega
+      simp [h, this, h2, colLettersRev]
+    · have h1 : n / 26 = (n / 26 - 1) + 1 := by omega
+      have := ih (n / 26 - 1) (by omega)
+      unfold pushColumn at this
+      rw [← h1] at this
+      simp [h, this]
+
 end Ptg
+
+/-! ## the abstract stack machine -/
+
+namespace Formula
+open Ptg
+
+/-- the edits of a token list, one after the other -/
+def runActs : List Act → St → Res St
+  | [], s => .ok s
+  | a :: as, s =>
+    match applyAct a s with
+    | .ok s' => runActs as s'
+    | .err e => .err e
+    | .panic e => .panic e
+    | .outOfFuel => .outOfFuel
+
+/-- what each token does to (text, stack): the reading of the token language the property describes -/
+def actOf (env : Env) (checked : Bool) : Tok → Act
+  | .ref _ a => .push (cellText a)
+  | .area _ a b => .push (cellText a ++ ':' :: cellText b)
+  | .ref3d _ i a => .push (env.sheet i ++ '!' :: cellText a)
+  | .area3d _ i a b => .push (env.sheet i ++ '!' :: cellText a ++ ':' :: cellText b)
+  | .refErr _ => .push "#REF!".toList
+  | .areaErr _ => .push "#REF!".toList
+  | .refErr3d _ i => .push (env.sheet i ++ '!' :: "#REF!".toList)
+  | .areaErr3d _ i => .push (env.sheet i ++ '!' :: "#REF!".toList)
+  | .name _ i => .push (env.name i)
+  | .int n => .push (natText n)
+  | .num b => .push (env.fmtNum b)
+  | .str _ s => .push ('"' :: s ++ ['"'])
+  | .bool b => .push (if b then "TRUE".toList else "FALSE".toList)
+  | .err code => .push (errName code)
+  | .missArg => .push []
+  | .binop op => .binop (opName op)
+  | .uplus => .pre '+'
+  | .uminus => .pre '-'
+  | .percent => .percent
+  | .paren => .paren
+  | .attrSum => .sum
+  | .attrSkip _ _ => .nop
+  | .func _ iftab => .func iftab ((Gen.ftabArgc[iftab]?).getD 0) checked
+  | .funcVar _ argc iftab => .func iftab argc checked
+
+mutual
+/-- arities match: a fixed-arity function node has as many arguments as `FTAB_ARGC` says -/
+def Expr.arityOk : Expr → Prop
+  | .uplus e => e.arityOk
+  | .uminus e => e.arityOk
+  | .percent e => e.arityOk
+  | .paren e => e.arityOk
+  | .sum e => e.arityOk
+  | .bin _ a b => a.arityOk ∧ b.arityOk
+  | .func _ iftab args => iftab < Gen.ftabLen ∧ Gen.ftabArgc[iftab]? = some args.length ∧ argsOk args
+  | .funcVar _ iftab args => iftab < Gen.ftabLen ∧ argsOk args
+  | _ => True
+def argsOk : List Expr → Prop
+  | [] => True
+  | a :: rest => a.arityOk ∧ argsOk rest
+end
+
+def argOffs (env : Env) (base : Nat) : List Expr → List Nat
+  | [] => []
+  | a :: rest => base :: argOffs env (base + (renderA1 env a).length) rest
+
+def concatArgs (env : Env) : List Expr → List Char
+  | [] => []
+  | a :: rest => renderA1 env a ++ concatArgs env rest
+
+theorem argOffs_length (env : Env) (base : Nat) (args : List Expr) :
+    (argOffs env base args).length = args.length := by
+  induction args generalizing base with
+  | nil => rfl
+  | cons a rest ih => simp [argOffs, ih]
+
+theorem joinArgs_concat (env : Env) (pre : List Char) (args : List Expr) (hne : args ≠ []) :
+    joinArgs (pre ++ concatArgs env args)
+      (argOffs env pre.length args ++ [pre.length + (concatArgs env args).length]) = .ok (renderArgs env args) := by
+  induction args generalizing pre with
+  | nil => exact absurd rfl hne
+  | cons a rest ih =>
+    cases rest with
+    | nil =>
+      simp [argOffs, joinArgs, concatArgs, renderArgs]
+    | cons b rest' =>
+      have ih' := ih (pre ++ renderA1 env a) (by simp)
+      simp only [List.length_append, List.append_assoc] at ih'
+      have hne2 : (argOffs env (pre.length + (renderA1 env a).length + (renderA1 env b).length) rest' ++
+          [pre.length + ((renderA1 env a).length + ((renderA1 env b).length + (concatArgs env rest').length))]).isEmpty = false := by
+        simp
+      have hslice : List.take (pre.length + (renderA1 env a).length - pre.length)
+          (List.drop pre.length (pre ++ (renderA1 env a ++ (renderA1 env b ++ concatArgs env rest')))) = renderA1 env a := by
+        rw [List.drop_left' rfl]; simp
+      simp only [argOffs, concatArgs, renderArgs, List.cons_append, List.length_append] at *
+      rw [joinArgs]
+      simp only [hne2]
+      simp only [Nat.add_assoc] at ih' hslice ⊢
+      rw [ih', hslice]
+      simp
+
+theorem not_add_lt (a b : Nat) : ¬ a + b < a := by omega
+
+theorem insertAt_append (buf r : List Char) (c : Char) :
+    insertAt (buf ++ r) buf.length c = buf ++ c :: r := by
+  simp [insertAt, List.take_left', List.drop_left']
+
+theorem argOffs_shift (env : Env) (base k : Nat) (l : List Expr) :
+    (argOffs env (base + k) l).map (· - base) = argOffs env k l := by
+  induction l generalizing k with
+  | nil => rfl
+  | cons x xs ih => simp [argOffs, Nat.add_assoc, ih]
+
+theorem argOffs_ge (env : Env) (base : Nat) (l : List Expr) : ∀ x ∈ argOffs env base l, base ≤ x := by
+  induction l generalizing base with
+  | nil => simp [argOffs]
+  | cons a rest ih =>
+    intro x hx
+    simp only [argOffs, List.mem_cons] at hx
+    rcases hx with rfl | hx
+    · exact Nat.le_refl _
+    · have := ih _ x hx; omega
+
+theorem ftabName_some (iftab : Nat) (h : iftab < Gen.ftabLen) : ftabName iftab = some (funcName iftab) := by
+  have hs : Gen.ftab.size = Gen.ftabLen := by decide +kernel
+  have : iftab < Gen.ftab.size := by omega
+  simp [ftabName, funcName, this]
+
+/-- the func edit on a state whose top `args.length` stack entries are the starts of the argument texts -/
+theorem applyAct_func (env : Env) (iftab : Nat) (chk : Bool) (args : List Expr) (buf : List Char) (stk : List Nat)
+    (hi : iftab < Gen.ftabLen) :
+    applyAct (.func iftab args.length chk) ⟨buf ++ concatArgs env args, stk ++ argOffs env buf.length args⟩ =
+      .ok ⟨buf ++ (funcName iftab ++ '(' :: renderArgs env args ++ [')']), stk ++ [buf.length]⟩ := by
+  have hl : (argOffs env buf.length args).length = args.length := argOffs_length _ _ _
+  cases args with
+  | nil => simp [applyAct, argOffs, concatArgs, renderArgs, ftabName_some _ hi]
+  | cons a rest' =>
+    have hlt : ¬ (stk ++ argOffs env buf.length (a :: rest')).length < (a :: rest').length := by
+      simp [hl]
+    have hdrop : List.drop ((stk ++ argOffs env buf.length (a :: rest')).length - (a :: rest').length)
+        (stk ++ argOffs env buf.length (a :: rest')) = argOffs env buf.length (a :: rest') := by
+      rw [List.length_append, hl]; simp
+    have htake : List.take ((stk ++ argOffs env buf.length (a :: rest')).length - (a :: rest').length)
+        (stk ++ argOffs env buf.length (a :: rest')) = stk := by
+      rw [List.length_append, hl]; simp
+    have hpos : (a :: rest').length > 0 := by simp
+    unfold applyAct
+    simp only [hlt, if_false, hpos, if_true, hdrop, htake]
+    have hany : (argOffs env buf.length (a :: rest')).any (· < (argOffs env buf.length (a :: rest')).headD 0) = false := by
+      rw [List.any_eq_false]
+      intro x hx
+      have := argOffs_ge env buf.length (a :: rest') x hx
+      simp [argOffs]; omega
+    simp only [hany]
+    have hhead : (argOffs env buf.length (a :: rest')).headD 0 = buf.length := by simp [argOffs]
+    simp only [hhead]
+    have hd : List.drop buf.length (buf ++ concatArgs env (a :: rest')) = concatArgs env (a :: rest') :=
+      List.drop_left' rfl
+    have htk : List.take buf.length (buf ++ concatArgs env (a :: rest')) = buf := List.take_left' rfl
+    have hle : ¬ buf.length > (buf ++ concatArgs env (a :: rest')).length := by simp
+    simp only [hd, htk, ftabName_some _ hi, hle]
+    have hrel := argOffs_shift env buf.length 0 (a :: rest')
+    simp only [Nat.add_zero] at hrel
+    rw [hrel]
+    have hj := joinArgs_concat env [] (a :: rest') (by simp)
+    simp only [List.nil_append, List.length_nil, Nat.zero_add] at hj
+    rw [hj]
+    simp
+
+mutual
+theorem machine_correct (env : Env) (chk : Bool) : ∀ (e : Expr), e.arityOk → ∀ (buf : List Char) (stk : List Nat) (rest : List Act),
+    runActs ((toRpn e).map (actOf env chk) ++ rest) ⟨buf, stk⟩ =
+      runActs rest ⟨buf ++ renderA1 env e, stk ++ [buf.length]⟩
+  | .ref _ _, _, buf, stk, rest => by simp [toRpn, runActs, actOf, applyAct, renderA1]
+  | .area _ _ _, _, buf, stk, rest => by simp [toRpn, runActs, actOf, applyAct, renderA1]
+  | .ref3d _ _ _, _, buf, stk, rest => by simp [toRpn, runActs, actOf, applyAct, renderA1]
+  | .area3d _ _ _ _, _, buf, stk, rest => by simp [toRpn, runActs, actOf, applyAct, renderA1]
+  | .name _ _, _, buf, stk, rest => by simp [toRpn, runActs, actOf, applyAct, renderA1]
+  | .int _, _, buf, stk, rest => by simp [toRpn, runActs, actOf, applyAct, renderA1]
+  | .num _, _, buf, stk, rest => by simp [toRpn, runActs, actOf, applyAct, renderA1]
+  | .str _ _, _, buf, stk, rest => by simp [toRpn, runActs, actOf, applyAct, renderA1]
+  | .bool _, _, buf, stk, rest => by simp [toRpn, runActs, actOf, applyAct, renderA1]
+  | .err _, _, buf, stk, rest => by simp [toRpn, runActs, actOf, applyAct, renderA1]
+  | .missing, _, buf, stk, rest => by simp [toRpn, runActs, actOf, applyAct, renderA1]
+  | .uplus e, h, buf, stk, rest => by
+    simp only [toRpn, List.map_append, List.append_assoc, List.map_cons, List.map_nil, List.singleton_append]
+    rw [machine_correct env chk e (by simpa [Expr.arityOk] using h)]
+    simp [runActs, actOf, applyAct, renderA1, insertAt_append, not_add_lt]
+  | .uminus e, h, buf, stk, rest => by
+    simp only [toRpn, List.map_append, List.append_assoc, List.map_cons, List.map_nil, List.singleton_append]
+    rw [machine_correct env chk e (by simpa [Expr.arityOk] using h)]
+    simp [runActs, actOf, applyAct, renderA1, insertAt_append, not_add_lt]
+  | .percent e, h, buf, stk, rest => by
+    simp only [toRpn, List.map_append, List.append_assoc, List.map_cons, List.map_nil, List.singleton_append]
+    rw [machine_correct env chk e (by simpa [Expr.arityOk] using h)]
+    simp [runActs, actOf, applyAct, renderA1]
+  | .paren e, h, buf, stk, rest => by
+    simp only [toRpn, List.map_append, List.append_assoc, List.map_cons, List.map_nil, List.singleton_append]
+    rw [machine_correct env chk e (by simpa [Expr.arityOk] using h)]
+    simp [runActs, actOf, applyAct, renderA1, insertAt_append, not_add_lt]
+  | .sum e, h, buf, stk, rest => by
+    simp only [toRpn, List.map_append, List.append_assoc, List.map_cons, List.map_nil, List.singleton_append]
+    rw [machine_correct env chk e (by simpa [Expr.arityOk] using h)]
+    simp [runActs, actOf, applyAct, renderA1, List.take_left', List.drop_left', not_add_lt]
+  | .bin op a b, h, buf, stk, rest => by
+    have h' : a.arityOk ∧ b.arityOk := by simpa [Expr.arityOk] using h
+    simp only [toRpn, List.map_append, List.append_assoc, List.map_cons, List.map_nil, List.singleton_append]
+    rw [machine_correct env chk a h'.1, machine_correct env chk b h'.2]
+    have ht : List.take (buf.length + (renderA1 env a).length) (buf ++ (renderA1 env a ++ renderA1 env b)) =
+        buf ++ renderA1 env a := by
+      rw [← List.append_assoc]; exact List.take_left' (by simp)
+    have hd : List.drop (buf.length + (renderA1 env a).length) (buf ++ (renderA1 env a ++ renderA1 env b)) =
+        renderA1 env b := by
+      rw [← List.append_assoc]; exact List.drop_left' (by simp)
+    simp [runActs, actOf, applyAct, renderA1, List.getLast?_append, List.dropLast_append_of_ne_nil, ht, hd, not_add_lt]
+  | .func c iftab args, h, buf, stk, rest => by
+    have h' : iftab < Gen.ftabLen ∧ Gen.ftabArgc[iftab]? = some args.length ∧ argsOk args := by
+      simpa [Expr.arityOk] using h
+    simp only [toRpn, List.map_append, List.append_assoc, List.map_cons, List.map_nil, List.singleton_append]
+    rw [machine_correctArgs env chk args h'.2.2]
+    simp only [runActs, actOf, h'.2.1, Option.getD_some]
+    rw [applyAct_func env iftab chk args buf stk h'.1]
+    simp [renderA1]
+  | .funcVar c iftab args, h, buf, stk, rest => by
+    have h' : iftab < Gen.ftabLen ∧ argsOk args := by simpa [Expr.arityOk] using h
+    simp only [toRpn, List.map_append, List.append_assoc, List.map_cons, List.map_nil, List.singleton_append]
+    rw [machine_correctArgs env chk args h'.2]
+    simp only [runActs, actOf]
+    rw [applyAct_func env iftab chk args buf stk h'.1]
+    simp [renderA1]
+theorem machine_correctArgs (env : Env) (chk : Bool) : ∀ (args : List Expr), argsOk args →
+    ∀ (buf : List Char) (stk : List Nat) (rest : List Act),
+    runActs ((toRpnArgs args).map (actOf env chk) ++ rest) ⟨buf, stk⟩ =
+      runActs rest ⟨buf ++ concatArgs env args, stk ++ argOffs env buf.length args⟩
+  | [], _, buf, stk, rest => by simp [toRpnArgs, concatArgs, argOffs]
+  | a :: as, h, buf, stk, rest => by
+    have h' : a.arityOk ∧ argsOk as := by simpa [argsOk] using h
+    simp only [toRpnArgs, List.map_append, List.append_assoc]
+    rw [machine_correct env chk a h'.1, machine_correctArgs env chk as h'.2]
+    simp [concatArgs, argOffs, List.append_assoc]
+end
+end Formula
